@@ -23,6 +23,29 @@ CHECKS = {
         note="Go's typed constructors are assumed to carry the given bit patterns; float values never undergo arithmetic."),
 }
 
+CHECKS["C03"] = dict(
+    engine="dec",
+    technique="Lean 4 proof (safety invariant by induction over all packet histories + soundness against an independent RFC 7011 slicing relation) + differential correspondence on in-package decodePacket",
+    text="Full proof for the model of decodePacket/decodeTemplateSet/decodeDataSet (with explicit panic and diverge outcomes): decode_total "
+         "(for every history of packets, every mode and every byte string decoding neither crashes nor diverges; invariant TemplatesWF, "
+         "registry hypothesis discharged from the regenerated registry by decide), decode_bounded (each record consumed >= 1 byte), "
+         "decode_exact (the body is complete records per the independent relation Slices/IsRecord/IsField plus padding shorter than the "
+         "minimum record; values are the per-type decodings of exactly those payloads), decode_template_exact (ids and enterprise numbers "
+         "as on the wire, in order). Tied to the code by three packet generators x degenerate template states x three modes; the "
+         "specification's expected observation is evaluated on every implementation observation.",
+    design="4 (C03), 5 (D1-D4b fixed)",
+    note="bytes.Buffer / binary.Read modelled as list take/drop; the message channel is drained by the harness; a 20 s watchdog stands for non-termination.")
+CHECKS["C04"] = dict(
+    engine="dec",
+    technique="Lean 4 proof (refinement of the template store to the declarative lastValid specification, by induction over histories) + bounded-exhaustive history correspondence",
+    text="Refinement proof: templates_refine (after any history the template in force for (domain,id) is lastValid of the event history), "
+         "data_uses_last_valid / data_rejected_without_template, frame (other domains / ids have no influence), bad_template_erases, for the "
+         "specification decodePacketSpec; code_eq_spec_off_cut + templates_refine_partial show the code's bookkeeping equals the specification "
+         "except for a template set cut right after its id, where d13_witness proves the full statement false (known finding D13, pinned by an "
+         "existing test). All histories up to length 3 (4 ending in data) over a 20-symbol alphabet are run against the real decoder.",
+    design="4 (C04), 5 (D13)",
+    note="strict mode, TCP (no expiry) in the correspondence; UDP expiry is C10.")
+
 NOT_YET = {}
 
 
